@@ -540,10 +540,11 @@ func genSrvFlow(p *prng, thorough bool, w *bufio.Writer) {
 					if p.chance(1, 3) {
 						decl = -1 // length not known in advance
 					}
+					tail := p.pick([]string{"e", "E", "e", "E", "e", "E", "e", "x"}) // x: the reader fails after its chunks (the response is cut short with RST_STREAM)
 					if a == sz {
-						body = fmt.Sprintf("stream:%d:%d:%s", decl, sz, p.pick([]string{"e", "E"}))
+						body = fmt.Sprintf("stream:%d:%d:%s", decl, sz, tail)
 					} else {
-						body = fmt.Sprintf("stream:%d:%d.%d:%s", decl, a, sz-a, p.pick([]string{"e", "E"}))
+						body = fmt.Sprintf("stream:%d:%d.%d:%s", decl, a, sz-a, tail)
 					}
 				}
 				g.done(sid, respGen{status: 200, body: body})
